@@ -41,24 +41,30 @@ UN(s) == [i \in 1..Len(s) |-> <<s[i][F_U], s[i][F_NV]>>]
 
 ProjBefore(s, pos, K) == Cardinality({i \in 1..pos : s[i][F_K] \in K})
 
-Hunk(s, w, K) ==
-  LET a == UN(SelectSeq(w.pre,  LAMBDA t : t[F_K] \in K))
+Hunk(s, ws, k, K) ==
+  LET w == ws[k]
+      a == UN(SelectSeq(w.pre,  LAMBDA t : t[F_K] \in K))
       b == UN(SelectSeq(w.post, LAMBDA t : t[F_K] \in K))
       p == CommonPrefixLen(a, b)
       q == CommonSuffixLen(a, b, p)
   IN [a   |-> ProjBefore(s, w.s, K) + p,
       n   |-> Len(a) - p - q,
       del |-> SubSeq(a, p + 1, Len(a) - q),
-      ins |-> SubSeq(b, p + 1, Len(b) - q)]
+      ins |-> SubSeq(b, p + 1, Len(b) - q),
+      k   |-> k]
 EmptyHunk(h) == h.n = 0 /\ h.ins = <<>>
-Hunks(s, ws, K) == {h \in {Hunk(s, ws[k], K) : k \in 1..Len(ws)} : ~EmptyHunk(h)}
+SameHunk(g, h) == g.a = h.a /\ g.n = h.n /\ g.del = h.del /\ g.ins = h.ins
+\* one representative (the last window) of every distinct non-empty hunk: a violation reported twice is one change
+Hunks(s, ws, K) ==
+  LET all == {Hunk(s, ws, k, K) : k \in 1..Len(ws)}
+  IN {h \in all : ~EmptyHunk(h) /\ ~\E g \in all : SameHunk(g, h) /\ g.k > h.k}
 
+\* replaced ranges of different hunks must not overlap (insertions at one place keep the order of their windows)
 HunksDisjoint(H) ==
-  \A g, h \in H : g # h => /\ (g.a + g.n <= h.a \/ h.a + h.n <= g.a)
-                           /\ ~(g.a = h.a /\ g.n = 0 /\ h.n = 0)      \* two different insertions at one place: order unknown
-\* the intended result on the projection: every distinct hunk applied exactly once
+  \A g, h \in H : g.k # h.k => (g.a + g.n <= h.a \/ h.a + h.n <= g.a)
+\* the intended result on the projection: every distinct hunk applied exactly once (right to left)
 ApplyHunks(p, H) ==
-  LET hs == SetToSortSeq(H, LAMBDA x, y : x.a > y.a \/ (x.a = y.a /\ x.n > y.n))
+  LET hs == SetToSortSeq(H, LAMBDA x, y : x.a > y.a \/ (x.a = y.a /\ x.n > y.n) \/ (x.a = y.a /\ x.n = y.n /\ x.k > y.k))
   IN FoldLeft(LAMBDA acc, h : Splice(acc, h.a, h.n, h.ins), p, hs)
 
 \* C01 / C02 at the level of one whole rule application (duplicate or overlapping windows may each look
